@@ -3,6 +3,7 @@
 package c01
 
 import (
+	"encoding/json"
 	"fmt"
 	"math/rand"
 	"time"
@@ -195,7 +196,11 @@ func Report(c *ev.Ctx, prop, class string, opt csnet.Options, res *csnet.Result,
 		isC02 := len(v.Key) >= 12 && (v.Key[:12] == "equivocation" || v.Key[:12] == "send-before-" || v.Key[:12] == "sent-message")
 		if isC02 != c02 {
 			c.Count("other_property_violation_"+v.Key, 1)
-			c.Notef("violation of the sibling property observed: %s", v.Key)
+			b, _ := json.Marshal(v.Detail)
+			if len(b) > 3000 {
+				b = b[:3000]
+			}
+			c.Notef("violation of the sibling property observed: %s %s", v.Key, b)
 			continue
 		}
 		c.Violation(v.Key, map[string]interface{}{"class": class, "n": opt.N, "byz": opt.Byz, "plan": opt.Plan, "detail": v.Detail, "crashes": res.Crashes})
